@@ -21,7 +21,11 @@ RULE = ('HTML documents made of arbitrarily nested forms, fieldsets with 0-2 leg
         'iframes with inner documents; built through the API as html / html5 and serialised and re-parsed by html.parser, lxml '
         'and html5lib. Checked on PY: the partition laws (enabled/disabled, required/optional, read-write/read-only, '
         'in-range/out-of-range, link = any-link, checked ⊆ default, dir ltr xor rtl for rooted HTML elements), the '
-        'first-submit and radio-group definitions against an independent reading, iframe locality; and PY = Lean matcher '
+        'first-submit and radio-group definitions against an independent reading (:indeterminate = its definition, with "radio" '
+        'being what input[type=radio] selects in the document kind), iframe locality; the same trees as XHTML parsed as XML '
+        '(lxml-xml) with type="RADIO" / "Radio" on some checked inputs, where names and the type keyword are case-sensitive; submit '
+        'controls and checked radios wrapped in <svg> / <math> (html5lib, XML, API-built with an XHTML root: SVG / MathML elements '
+        'named input, no form controls -- the laws quantify over HTML elements); and PY = Lean matcher '
         'model for all thirteen pseudo-classes and :dir. Non-trivial = non-empty result.')
 
 PSEUDOS = [':link', ':any-link', ':checked', ':default', ':indeterminate', ':disabled', ':enabled', ':required', ':optional',
@@ -33,21 +37,45 @@ def laws(soup, state, info):
     els = gen.elements(soup)
     S = {p: {id(e) for e in sv.select(p, soup)} for p in PSEUDOS}
     bad = []
+    # XHTML parsed as XML: element names, attribute names and the `type` keyword are compared exactly (what `html|input`,
+    # `[checked]`, `[type="radio"]` select in that document kind); HTML: ASCII case-insensitively
+    xml = bool(soup._is_xml)
 
     def nm(e):
-        return e.name.lower()
+        return e.name if xml else e.name.lower()
+
+    def kw(v):
+        v = v if isinstance(v, str) else ' '.join(v)
+        return v if xml else v.lower()
+
+    def attr(e, name):
+        """The value of the attribute an attribute selector `[name]` designates (None: there is none)."""
+        for k, v in e.attrs.items():
+            if (str(k) if xml else str(k).lower()) == name:
+                return v if isinstance(v, str) else ' '.join(v)
+        return None
+
+    # Only HTML elements have states: with namespace support (XML, html5lib, an XHTML-namespace root) an <input> inside <svg> /
+    # <math> is an SVG / MathML element named `input`, not a form control
+    root0 = next((c for c in soup.contents if isinstance(c, bs4.Tag)), None)
+    supports_ns = xml or (root0 is not None and root0.namespace == gen.XHTML)
+
+    def is_html(e):
+        return not supports_ns or e.namespace == gen.XHTML
+    state['foreign_controls'] = state.get('foreign_controls', 0) + sum(
+        1 for e in els if not is_html(e) and nm(e) in ('input', 'button') and (attr(e, 'checked') is not None or kw(e.get('type', '')) == 'submit'))
 
     def is_control(e):
-        return nm(e) in CONTROLS or (nm(e) == 'input' and str(e.get('type', '')).lower() != 'hidden')
-    allids = {id(e) for e in els}
+        return is_html(e) and (nm(e) in CONTROLS or (nm(e) == 'input' and kw(e.get('type', '')) != 'hidden'))
+    allids = {id(e) for e in els if is_html(e)}
     if S[':enabled'] & S[':disabled']:
         bad.append('enabled ∩ disabled ≠ ∅')
     if (S[':enabled'] | S[':disabled']) != {id(e) for e in els if is_control(e)}:
         bad.append('enabled ∪ disabled ≠ form controls')
-    if S[':required'] & S[':optional'] or (S[':required'] | S[':optional']) != {id(e) for e in els if nm(e) in ('input', 'select', 'textarea')}:
+    if S[':required'] & S[':optional'] or (S[':required'] | S[':optional']) != {id(e) for e in els if is_html(e) and nm(e) in ('input', 'select', 'textarea')}:
         bad.append('required/optional do not partition input, select, textarea')
     if S[':read-write'] & S[':read-only'] or (S[':read-write'] | S[':read-only']) != allids:
-        bad.append('read-write/read-only do not partition all elements')
+        bad.append('read-write/read-only do not partition all (HTML) elements')
     if S[':in-range'] & S[':out-of-range']:
         bad.append('in-range ∩ out-of-range ≠ ∅')
     if S[':link'] != S[':any-link']:
@@ -58,7 +86,7 @@ def laws(soup, state, info):
     root = next((c for c in soup.contents if isinstance(c, bs4.Tag)), None)
     for e in els:
         rooted = root is not None and (e is root or root in list(e.parents))
-        if rooted and ((id(e) in S[':dir(ltr)']) == (id(e) in S[':dir(rtl)'])):
+        if rooted and is_html(e) and ((id(e) in S[':dir(ltr)']) == (id(e) in S[':dir(rtl)'])):
             bad.append(f'dir: element <{e.name}> is in both or neither of :dir(ltr) / :dir(rtl)')
             break
     # :default beyond :checked = first submit button of each form (same document: not across an iframe)
@@ -71,7 +99,7 @@ def laws(soup, state, info):
         return out
 
     def form_of(e):
-        return next((p for p in own_doc_ancestors(e) if nm(p) == 'form'), None)
+        return next((p for p in own_doc_ancestors(e) if nm(p) == 'form' and is_html(p)), None)
 
     def walk(form):
         """descendants of form in order, not entering iframes; stops at a nested form (as the code documents)."""
@@ -81,15 +109,55 @@ def laws(soup, state, info):
                 if nm(c) != 'iframe':
                     yield from walk(c)
     want_default = set(S[':checked'])
-    for f in [e for e in els if nm(e) == 'form']:
+    for f in [e for e in els if nm(e) == 'form' and is_html(e)]:
         for d in walk(f):
             if nm(d) == 'form':
                 break
-            if nm(d) in ('input', 'button') and str(d.get('type', '')).lower() == 'submit':
+            if is_html(d) and nm(d) in ('input', 'button') and kw(d.get('type', '')) == 'submit':
                 want_default.add(id(d))
                 break
     if S[':default'] != want_default and not info.get('nested_forms'):
         bad.append(':default ≠ :checked ∪ first submit button of each form')
+    # :indeterminate = checkboxes carrying `indeterminate`, `progress` without `value`, and UNCHECKED radio buttons that have no
+    # (or an empty) name or whose group has no checked member.  Group of a radio: the radios with the same name owned by the same
+    # form, or -- outside any form -- by the same document (never across an iframe boundary).  "Radio" is what
+    # `input[type=radio]` selects in this document kind: the keyword compared exactly in XML, case-insensitively in HTML.
+    def is_radio(e):
+        return is_html(e) and nm(e) == 'input' and attr(e, 'type') is not None and kw(attr(e, 'type')) == 'radio'
+
+    def owner(e):
+        anc = own_doc_ancestors(e)
+        f = next((p for p in anc if nm(p) == 'form' and is_html(p)), None)
+        if f is not None:
+            return f
+        if anc:
+            top = anc[-1]
+            return top.parent if isinstance(top.parent, bs4.BeautifulSoup) else top
+        return e.parent
+    radios = [e for e in els if is_radio(e)]
+    want_ind = set()
+    for e in els:
+        if not is_html(e):
+            continue
+        if nm(e) == 'input' and attr(e, 'type') is not None and kw(attr(e, 'type')) == 'checkbox' and attr(e, 'indeterminate') is not None:
+            want_ind.add(id(e))
+        elif nm(e) == 'progress' and attr(e, 'value') is None:
+            want_ind.add(id(e))
+        elif is_radio(e) and attr(e, 'checked') is None:
+            name = attr(e, 'name')
+            if not name:
+                want_ind.add(id(e))
+                continue
+            own = owner(e)
+            if not any(r is not e and attr(r, 'checked') is not None and attr(r, 'name') == name and owner(r) is own for r in radios):
+                want_ind.add(id(e))
+    state['radios_other_case'] = state.get('radios_other_case', 0) + sum(
+        1 for e in els if nm(e) == 'input' and attr(e, 'type') is not None and attr(e, 'type') != 'radio' and attr(e, 'type').lower() == 'radio'
+        and attr(e, 'checked') is not None and attr(e, 'name'))
+    if S[':indeterminate'] != want_ind:
+        pos = {id(e): n for n, e in enumerate(els)}
+        bad.append(':indeterminate ≠ its definition (unchecked radios whose group has no checked member, …): got '
+                   f'{sorted(pos[i] for i in S[":indeterminate"])}, want {sorted(pos[i] for i in want_ind)}')
     for b in bad:
         state['bad'].append({'law': b, **info})
     state['checks'] += 1
@@ -102,6 +170,88 @@ def has_nested_forms(soup):
     return False
 
 
+def recase_radios(rng, nodes):
+    """`type="radio"` in other letter case (RADIO, Radio) on some radios -- in XML these are NOT radio buttons."""
+    out = []
+    for n in nodes:
+        if n[0] == 'e':
+            _, name, prefix, ns, attrs, kids = n
+            keys = {k for k, _ in attrs}
+            # a CHECKED, named one is what matters: in XML it must not count as a checked member of its group
+            if name == 'input' and rng.random() < (0.7 if {'checked', 'name'} <= keys else 0.2):
+                attrs = [(k, rng.choice(['RADIO', 'Radio', 'rADIO']) if k == 'type' and v == 'radio' else v) for k, v in attrs]
+            n = ('e', name, prefix, ns, attrs, recase_radios(rng, kids))
+        out.append(n)
+    return out
+
+
+FOREIGN = [('svg', gen.SVG), ('math', 'http://www.w3.org/1998/Math/MathML')]
+
+
+def foreignize(rng, nodes, inside_form=False):
+    """Wrap some controls in <svg> / <math>: under html5lib (and in XML, and in API-built trees with an XHTML root) the wrapped
+    <input> / <button> is an SVG / MathML element -- no form control: never the form's default button, never a member of a radio
+    group.  Submit controls and checked radios inside forms are what the scans of :default / :indeterminate could mistake."""
+    out = []
+    for n in nodes:
+        if n[0] == 'e':
+            _, name, prefix, ns, attrs, kids = n
+            d = dict((k, v) for k, v in attrs if isinstance(k, str))
+            hot = name in ('input', 'button') and (str(d.get('type', '')).lower() == 'submit' or ('checked' in d and str(d.get('type', '')).lower() == 'radio'))
+            if name in ('input', 'button') and not kids and rng.random() < (0.55 if hot else 0.08):
+                wname, wns = rng.choice(FOREIGN)
+                out.append(('e', wname, None, wns, [('xmlns', wns)], [('e', name, None, wns, attrs, kids)]))
+                if hot and rng.random() < 0.6:
+                    # its HTML twin right behind it: the real first submit button / an unchecked real radio of the same group
+                    out.append(('e', name, prefix, ns, [(k, v) for k, v in attrs if k != 'checked'], kids))
+                continue
+            n = ('e', name, prefix, ns, attrs, foreignize(rng, kids, inside_form or name == 'form') if name != 'iframe' else kids)
+        out.append(n)
+    return out
+
+
+def foreign_form(rng):
+    """A form whose FIRST submit control and whose CHECKED radio are SVG / MathML elements, next to the real ones."""
+    def wrap(n):
+        wname, wns = rng.choice(FOREIGN)
+        return ('e', wname, None, wns, [('xmlns', wns)], [('e', n[1], None, wns, n[4], n[5])])
+    g = rng.choice(['g1', 'g2', 'g7'])
+    sub = lambda: ('e', rng.choice(['input', 'button']), None, None, [('type', 'submit')], [])      # noqa: E731
+    radio = lambda c: ('e', 'input', None, None, [('type', 'radio'), ('name', g)] + ([('checked', '')] if c else []), [])      # noqa: E731
+    kids = []
+    if rng.random() < 0.7:
+        kids += [wrap(sub()), sub()] + ([sub()] if rng.random() < 0.3 else [])
+    if rng.random() < 0.7 or not kids:
+        rs = [wrap(radio(True)), radio(False)] + ([radio(False)] if rng.random() < 0.4 else [])
+        rng.shuffle(rs)
+        kids += rs
+    return ('e', 'form' if rng.random() < 0.8 else 'div', None, None, [], kids)
+
+
+def inject(nodes, extra):
+    """Append `extra` to the children of the first <div> (depth first); -> (nodes, done)."""
+    out, done = [], False
+    for n in nodes:
+        if not done and n[0] == 'e' and n[1] != 'iframe':
+            _, name, prefix, ns, attrs, kids = n
+            if name == 'div':
+                n, done = ('e', name, prefix, ns, attrs, list(kids) + [extra]), True
+            else:
+                k2, done = inject(kids, extra)
+                n = ('e', name, prefix, ns, attrs, k2)
+        out.append(n)
+    return out, done
+
+
+def xhtml_markup(rng, top):
+    if not (top and top[0][0] == 'e' and top[0][1] == 'html'):
+        top = [('e', 'html', None, None, [], [('e', 'head', None, None, [], []), ('e', 'body', None, None, [], top)])]
+    top = recase_radios(rng, top)
+    _, name, prefix, ns, attrs, kids = top[0]
+    root = ('e', name, prefix, ns, [('xmlns', gen.XHTML)] + [a for a in attrs if a[0] != 'xmlns'], kids)
+    return '<?xml version="1.0"?>' + gen.to_markup([root] + list(top[1:]), xml=True)
+
+
 def make_cases_factory(state):
     def make_cases(rng, n):
         cases = []
@@ -111,6 +261,11 @@ def make_cases_factory(state):
                 kind = 'html'
             if kind == 'xhtml':
                 kind = 'html5'
+            if rng.random() < 0.4:
+                top = foreignize(rng, top)
+                if rng.random() < 0.6:
+                    top, _ = inject(top, foreign_form(rng))
+                state['foreignized'] = state.get('foreignized', 0) + 1
             variants = [('api', gen.build_doc(kind, top), {'kind': kind, 'tree': top})]
             if rng.random() < 0.5 and top and top[0][1] == 'html':
                 body = gen.to_markup(top)
@@ -119,6 +274,14 @@ def make_cases_factory(state):
                         variants.append((parser, bs4.BeautifulSoup(body, parser), {'markup': body, 'parser': parser}))
                     except Exception:
                         pass
+            if rng.random() < 0.45:
+                # the same tree as XHTML parsed as XML (lxml-xml): names and the `type` keyword are case-sensitive there
+                xm = xhtml_markup(rng, top)
+                try:
+                    variants.append(('xhtml-as-xml', bs4.BeautifulSoup(xm, 'xml'), {'markup': xm, 'parser': 'xml'}))
+                    state['xhtml_as_xml'] = state.get('xhtml_as_xml', 0) + 1
+                except Exception:
+                    pass
             for name, soup, src in variants:
                 info = dict(src)
                 info['nested_forms'] = has_nested_forms(soup)
@@ -140,7 +303,11 @@ def run(chk):
     orig = chk.finish
 
     def finish(**kw):
-        chk.coverage.update({'law_documents': state['checks'], 'law_violations': len(state['bad'])})
+        chk.coverage.update({'law_documents': state['checks'], 'law_violations': len(state['bad']),
+                             'xhtml_parsed_as_xml_documents': state.get('xhtml_as_xml', 0),
+                             'trees_with_controls_wrapped_in_svg_or_math': state.get('foreignized', 0),
+                             'foreign_namespace_submit_controls_and_checked_inputs_seen': state.get('foreign_controls', 0),
+                             'checked_named_inputs_whose_type_is_radio_in_other_letter_case': state.get('radios_other_case', 0)})
         for i, b in enumerate(state['bad'][:5]):
             chk.violation(f'law{i}', {'what': 'state pseudo-class law violated on the real code', **b}, concrete=True)
         return orig(**kw)
@@ -150,4 +317,18 @@ def run(chk):
 
 
 def replay(chk, path):
-    return common_match.replay(chk, path, PID)
+    data = json.load(open(path))
+    if 'law' not in data:
+        return common_match.replay(chk, path, PID)
+    # a law violation: rebuild the document and evaluate the laws on the real library again
+    if 'markup' in data:
+        soup = bs4.BeautifulSoup(data['markup'], data['parser'])
+    else:
+        soup = gen.build_doc(data['kind'], data['tree'])
+    state = {'checks': 0, 'bad': []}
+    laws(soup, state, {'nested_forms': has_nested_forms(soup)})
+    print(json.dumps([b['law'] for b in state['bad']], ensure_ascii=False))
+    if state['bad']:
+        print(f'VIOLATION property={PID} replay={path}')
+        return 1
+    return 0
